@@ -85,14 +85,14 @@ type rmodel struct {
 }
 
 type env struct {
-	sw    *swarm.Swarm
-	tr    *swarm.Tor
-	g     *fixture.Geo
-	seeds []*swarm.Remote
-	stats map[string]int
+	sw           *swarm.Swarm
+	tr           *swarm.Tor
+	g            *fixture.Geo
+	seeds        []*swarm.Remote
+	stats        map[string]int
 	honestSeedUp func() bool
-	keepHonest   func()    // reconnects an honest seed if storrent dropped the last one
-	honestGap    time.Time // last moment at which no honest seed was connected
+	keepHonest   func()       // reconnects an honest seed if storrent dropped the last one
+	honestGap    time.Time    // last moment at which no honest seed was connected
 	slowHash     bool         // hashing takes virtual time in this history
 	hashing      atomic.Int64 // pieces that have entered hashing so far
 }
